@@ -652,6 +652,22 @@ impl Host {
 
     fn drain_log(&mut self) {
         let mut l = self.log.borrow_mut();
+        // The order in which one continue notifies *different* variables is the iteration
+        // order of a hash map and is not part of any property: sort each run of
+        // consecutive notifications.
+        let mut i = 0;
+        while i < l.len() {
+            if matches!(l[i], Obs::Notify { .. }) {
+                let mut j = i;
+                while j < l.len() && matches!(l[j], Obs::Notify { .. }) {
+                    j += 1;
+                }
+                l[i..j].sort_by_key(|o| o.show());
+                i = j;
+            } else {
+                i += 1;
+            }
+        }
         self.trace.append(&mut l);
     }
 
